@@ -112,6 +112,7 @@ type (
 		chain             Ledger
 		bQueue            *bqueue.Queue[*block.Block]
 		bSyncQueue        *bqueue.Queue[*block.Block]
+		bSyncQueueRun     sync.Once
 		syncHFetcherQueue *bqueue.Queue[*block.Header]
 		syncBFetcherQueue *bqueue.Queue[*block.Block]
 		bFetcherQueue     *bqueue.Queue[*block.Block]
@@ -918,10 +919,11 @@ func (s *Server) handleBlockCmd(p Peer, block *block.Block) error {
 	}
 	if s.stateSync.IsActive() {
 		// The module's block height is not defined until MPT is in sync, the
-		// queue can't accept blocks before that.
+		// queue can neither accept blocks nor run before that.
 		if !s.stateSync.NeedBlocks() {
 			return nil
 		}
+		s.bSyncQueueRun.Do(func() { go s.bSyncQueue.Run() })
 		return s.bSyncQueue.Put(block)
 	}
 	return s.bQueue.Put(block)
